@@ -14,7 +14,7 @@ THEOREMS = ['Fsic.C01.' + n for n in [
     'term_read_exact', 'code_denotes_script', 'equation_denotes_script', 'equation_denotes_code',
     'replacement_exact', 'replacement_table', 'replacement_untouched', 'keywords_not_replaced',
     'evalPass_gauss_seidel', 'evalPass_append', 'assign_writes_lhs', 'evalPass_frame', 'reads_are_terms',
-    'pass_reads_writes', 'rel_pos']]
+    'pass_reads_writes', 'rel_pos', 'evaluate_order_members', 'evaluate_order_sorted']]
 RULE = ('programs of the gen_scripts grammar: exhaustive small statements (Y = t1 [op t2], calls; stress names x index '
         'forms x term kinds) under rotating LAYOUT_CATALOGUE entries, sampled larger programs (up to 7 equations, '
         'nesting <= 4, multi-line, random layouts), stress programs (two-digit lags/leads, function names that are '
@@ -157,7 +157,7 @@ def quick_cases(ctx):
             cases.append(mkcase(prog, gs.render(prog, L), L.wrap_rhs, stream='stress:' + lname, seed=seed))
     # C. sampled larger programs
     rng = ctx.sub_rng('sampled')
-    n_big = (2500 if quick else 40000) * ctx.scale
+    n_big = (4000 if quick else 40000) * ctx.scale
     cfg = gs.GenConfig(max_equations=12, max_depth=4, max_lag=3, max_lead=2)
     cfg_deep = gs.GenConfig(max_equations=12, max_depth=4, max_lag=12, max_lead=10)
     for i in range(n_big):
@@ -434,7 +434,7 @@ def drive_cases(ctx, cases, impls):
 
 
 def run_cases(ctx, rep, cases):
-    impls = [observe(c, rep) for c in cases]
+    impls = ec.observe_all(observe, cases, rep, ctx.workers)
     if ctx.oracle_only:
         return
     for case, impl, forms, evalp in drive_cases(ctx, cases, impls):
@@ -446,8 +446,8 @@ def run_cases(ctx, rep, cases):
 
 def run(ctx, rep):
     cases = quick_cases(ctx)
-    for lo in range(0, len(cases), 2000):
-        run_cases(ctx, rep, cases[lo:lo + 2000])
+    for lo in range(0, len(cases), 20000):
+        run_cases(ctx, rep, cases[lo:lo + 20000])
     rep.notes.append(f'{len(cases)} cases; small statements exhaustive x '
                      f'{"2 rotating" if ctx.tier == "quick" else "all"} catalogue layouts')
     rep.exhaustive = False
